@@ -105,7 +105,7 @@ CHECKS = {
             'abstract definition for all small arrangements (with the inductive invariant CursorsConsistent linking steps). TLC-generated '
             'arrangements + cursor programs (predicted position and supplying source after every operation) are replayed on the real engine '
             'with layers realised as table files, immutable memtables, mixed, and as a transaction buffer over stored layers; running scans '
-            'stepped between foreign writes/flush/compaction are validated by TLC against TRACE_Scan.',
+            'stepped (Next, Seek, forward re-seek) between foreign writes/flush/compaction are validated by TLC against TRACE_Scan.',
             'bounded model; service-level scan options under C19; running-scan schedules sampled at Next granularity',
             'TLC MC of transcribed algorithms + replay of generated cursor programs + TLC trace validation of running scans'),
     'C17': ('model_checking', '§7 C17',
@@ -121,7 +121,11 @@ CHECKS = {
             'Die between any two sub-steps, Recover and a second Die. The real engine is then stopped (os.Exit without cleanup, in a child '
             'process) at EVERY (hook site, hit) of TLC-generated programs, reopened, observed, written to again, reopened and observed again; '
             'torn variants cut the write in flight; gated variants stop inside the log rotation while the client keeps writing; each outcome '
-            'is a trace that TLC validates against KevoDurable - it has to find a surviving prefix that explains every observation.',
+            'is a trace that TLC validates against KevoDurable - it has to find a surviving prefix that explains every observation. '
+            'KevoRetention (the primary\'s log retention driven by replication acknowledgements - the only code that deletes log files) is '
+            'model-checked (Recoverable, NextAbove, GuardSound; the unguarded variant must fail) and TLC-generated walks (put, flush, '
+            'acknowledge, die also inside an append, recover) run on a real primary, one child process per life, with log files, readable '
+            'entries, next number and unflushedFrom compared after every step.',
             'process death not power failure; stop points = hook sites; SyncBatch held to the SyncNone contract; bounded model',
             'TLC refinement MC + crash enumeration at hook sites + TLC trace validation (prefix search)'),
     'C03': ('model_checking', '§7 C03',
@@ -158,8 +162,11 @@ CHECKS = {
     'C08': ('model_checking', '§7 C08',
             'KevoStore.tla: SeqStrictlyUp, NextAboveAll, LastSeqTruthful, LastSeqMonotone checked exhaustively over writes, batches, '
             'rotation, flush, crash, recovery; TLC-generated behaviours replayed with storage_last_sequence compared after every call '
-            'and the whole log directory read back at the end (groups of equal numbers = issued operations in order, strictly increasing).',
-            'bounded constants; log retirement excluded (kevo keeps no persistent counter); crash variants are covered under C02',
+            'and the whole log directory read back at the end (groups of equal numbers = issued operations in order, strictly increasing); '
+            'gated interleavings park the rotation (and a writer inside its append) while clients write, the hook stream must keep the '
+            'numbering rules of TRACE_StoreProto; crash recoveries (stops at hook sites incl. torn and record-boundary tails of fragmented '
+            'entries) must continue the numbering behind the surviving operations (TRACE_Durable!TObs).',
+            'bounded constants; log retirement while closed excluded (kevo keeps no persistent counter); live retention under KevoRetention (C02)',
             'TLC exhaustive MC + replay with sequence-number oracle + log read-back'),
 }
 
